@@ -142,6 +142,16 @@ def unfold_blk(E, h, k, depth=2):
                                    PyVal.PNone))))
     E.assume(mk_bool(blk(h, k) == body))
     decompose(E, k, p.path)
+    pp = z3.simplify(p.path)
+    if z3.is_app(pp) and pp.decl().kind() == z3.Z3_OP_SEQ_CONCAT and pp.num_args() == 2:
+        # a merged key path a ++ b: walking it is walking a and then b
+        from contracts import seqlemmas as SL
+        a, b = pp.arg(0), pp.arg(1)
+        SL.use(E, "prefix_concat", a, b, k)
+        SL.use(E, "tail_tail", k, z3.Length(a), z3.Length(b))
+        SL.use(E, "prefix_is_code_slice", pp, k)
+        SL.use(E, "prefix_is_code_slice", a, k)
+        SL.use(E, "prefix_is_code_slice", b, tail(k, z3.Length(a)))
     for (c, kk) in ((p.child, kv_tail), (p.left, br_tail), (p.right, br_tail)):
         c = z3.simplify(c)
         for (hr, fn, src) in E.ghost.get("view_rules", []):
